@@ -1,6 +1,7 @@
 """C17 translator, part 2: the *source text* of every C function / boot.janet definition that has a Lean mirror
 (Lib/StrC.lean, Lib/Kmp.lean, Lib/BufC.lean, Lib/ArrC.lean, Lib/Boot.lean, Lib/Sort.lean) is regenerated, normalised
-(comments and docstrings removed, whitespace collapsed), into lean/JanetModel/Gen/LibSrc.lean on every run.
+(comments and docstrings removed, whitespace collapsed, parameters and locals renamed to v1, v2, … in order of
+declaration, `(void) x;` statements dropped), into lean/JanetModel/Gen/LibSrc.lean on every run.
 lean/JanetModel/Lib/SrcTie.lean holds, per function, the text the mirror was transcribed from and a kernel-checked
 theorem `Gen.LibSrc.<fn> = "<that text>"`; so any edit of a mirrored function makes exactly that theorem fail until the
 mirror has been re-examined (then `python3 -m tools.gen.libsrc --tie` rewrites SrcTie.lean).
@@ -216,6 +217,205 @@ def janet_def(src, name):
     return janet_strip(src[m.start():janet_tokens_span(src, m.start())])
 
 
+# ---------------------------------------------------------------------------------------------------------------------
+# Normalisation beyond whitespace / comments (session 4): the tie must not break on a behaviour-preserving rename of a
+# local variable or parameter, nor on an added `(void) x;` statement.  Every identifier that the function itself declares
+# (parameters and locals) is replaced by `v1, v2, …` in order of declaration; everything else (called functions, struct
+# fields, macros, constants, types, literals, operators, statement order) is kept verbatim, so an edit that changes which
+# variable is used where, or anything about the computation, still changes the text.
+
+_C_TYPE = (r"(?:(?:const|unsigned|signed|volatile|static|register)\s+)*"
+           r"(?:struct\s+\w+|union\s+\w+|enum\s+\w+|u?int(?:8|16|32|64)?_t|size_t|ssize_t|intptr_t|uintptr_t|int|long|short|char|"
+           r"double|float|void|Janet\w*|kmp_state)"
+           r"(?:\s+(?:const|long|int|unsigned))*")
+_C_DECL = re.compile(r"(?<![\w>.])" + _C_TYPE + r"(?=[\s\*])[\s\*]*(?:const\s+)?([A-Za-z_]\w*)\s*(?=[=;,\[\)])")
+_C_TOKEN = re.compile(r'"(?:[^"\\]|\\.)*"|\'(?:[^\'\\]|\\.)*\'|[A-Za-z_]\w*|->|\.|\s+|.', re.S)
+_C_KEYWORDS = set("if else for while do switch case default break continue return goto sizeof struct union enum const "
+                  "unsigned signed static void int long short char double float".split())
+
+
+def c_params(src, name):
+    """(parameter list text including parentheses, body) of the definition of plain C function `name`"""
+    body = func_body(src, name)
+    for m in re.finditer(r"\b%s\s*\(" % re.escape(name), src):
+        i, depth = m.end() - 1, 0
+        while i < len(src):
+            if src[i] == "(":
+                depth += 1
+            elif src[i] == ")":
+                depth -= 1
+                if depth == 0:
+                    break
+            i += 1
+        j = i + 1
+        while j < len(src) and src[j] in " \t\r\n":
+            j += 1
+        if src.startswith(body, j):
+            return src[m.end() - 1:i + 1], body
+    raise ExtractError("C17: parameter list of %s not found" % name)
+
+
+def _top_level_pieces(text, sep=","):
+    out, depth, cur = [], 0, []
+    for ch in text:
+        if ch in "([{":
+            depth += 1
+        elif ch in ")]}":
+            depth -= 1
+        if ch == sep and depth == 0:
+            out.append("".join(cur))
+            cur = []
+        else:
+            cur.append(ch)
+    out.append("".join(cur))
+    return out
+
+
+def c_declared(text):
+    """identifiers declared by the function text `(params) { body }`, in order of declaration"""
+    names = []
+
+    def add(n):
+        if n not in names and n not in _C_KEYWORDS:
+            names.append(n)
+    for m in _C_DECL.finditer(text):
+        add(m.group(1))
+        # further declarators of the same declaration:  int32_t i, j, len = 0;
+        k = m.end()
+        if text[k:k + 1] in "=,[" and not _in_parens_at(text, m.start()):
+            end = _stmt_end(text, k)
+            for piece in _top_level_pieces(text[k:end])[1:]:
+                mm = re.match(r"[\s\*]*([A-Za-z_]\w*)\s*(?:$|=|\[)", piece)
+                if mm:
+                    add(mm.group(1))
+    return names
+
+
+def _in_parens_at(text, pos):
+    """is position `pos` inside a parenthesis group (parameter list, `for (…)` header)?  Only the innermost statement matters:
+    scan back to the previous `;`, `{` or `}` at depth 0."""
+    depth = 0
+    i = pos - 1
+    while i >= 0:
+        c = text[i]
+        if c == ")":
+            depth += 1
+        elif c == "(":
+            if depth == 0:
+                return True
+            depth -= 1
+        elif c in ";{}" and depth == 0:
+            return False
+        i -= 1
+    return False
+
+
+def _stmt_end(text, k):
+    depth = 0
+    while k < len(text):
+        c = text[k]
+        if c in "([{":
+            depth += 1
+        elif c in ")]}":
+            if depth == 0:
+                return k
+            depth -= 1
+        elif c == ";" and depth == 0:
+            return k
+        k += 1
+    return k
+
+
+def c_alpha(text):
+    """rename declared identifiers to v1, v2, …; drop `(void) x;` statements"""
+    text = re.sub(r"\(\s*void\s*\)\s*[A-Za-z_]\w*\s*;", "", text)
+    names = c_declared(text)
+    ren = {n: "v%d" % (i + 1) for i, n in enumerate(names)}
+    out, prev = [], ""
+    for m in _C_TOKEN.finditer(text):
+        t = m.group(0)
+        if t in ren and prev not in (".", "->"):
+            out.append(ren[t])
+        else:
+            out.append(t)
+        if not t.isspace():
+            prev = t
+    return _ws("".join(out))
+
+
+_J_TOKEN = re.compile(r'"(?:[^"\\]|\\.)*"|`+|[()\[\]{}]|[^\s()\[\]{}"`]+|\s+', re.S)
+_J_NOT_NAMES = {"&", "&opt", "&keys", "&named", "_"}
+_J_BINDERS1 = {"def", "def-", "var", "var-", "each", "eachk", "eachp", "forv", "for", "repeat-var"}
+_J_BINDERSV = {"let", "if-let", "when-let", "when-with", "if-with", "with-syms"}
+
+
+def janet_alpha(text):
+    """`defn` / `defn-` only: rename the symbols bound by the parameter vector, def / var (also destructuring), each / eachk /
+    eachp / forv / for, let / if-let / when-let (binding positions) and inner `fn` parameter vectors to v1, v2, … in order
+    of binding.  Macros (`defmacro`) are left verbatim: the symbols in their templates are part of what they emit."""
+    if not re.match(r"\(defn-?\s", text):
+        return text
+    toks = [t for t in _J_TOKEN.findall(text) if not t.isspace()]
+    names = []
+
+    def add(t):
+        if re.match(r"^[^\d:'~,;|@\"`()\[\]{}][^()\[\]{}\"`]*$", t) and t not in _J_NOT_NAMES and t not in names:
+            names.append(t)
+
+    def group(i):
+        """toks[i] opens a bracket: -> index just past its close"""
+        depth = 0
+        while i < len(toks):
+            if toks[i] in "([{":
+                depth += 1
+            elif toks[i] in ")]}":
+                depth -= 1
+                if depth == 0:
+                    return i + 1
+            i += 1
+        return i
+
+    def add_pattern(i):
+        """a binding pattern starting at toks[i] (symbol or destructuring form) -> index past it"""
+        if toks[i] in "([{":
+            j = group(i)
+            for t in toks[i + 1:j - 1]:
+                if t not in "()[]{}":
+                    add(t)
+            return j
+        add(toks[i])
+        return i + 1
+    # parameter vector of the defn: first `[` at depth 1
+    i, n = 0, len(toks)
+    while i < n:
+        t = toks[i]
+        if t == "(" and i + 1 < n:
+            h = toks[i + 1]
+            if h in ("defn", "defn-", "fn") :
+                j = i + 2
+                while j < n and toks[j] != "[" and toks[j] not in "()":
+                    j += 1                      # skip the name / keyword name / flags
+                if j < n and toks[j] == "[":
+                    add_pattern(j)
+            elif h in _J_BINDERS1 and i + 2 < n:
+                add_pattern(i + 2)
+            elif h in _J_BINDERSV and i + 2 < n and toks[i + 2] == "[":
+                j, end = i + 3, group(i + 2) - 1
+                while j < end:
+                    j = add_pattern(j)          # binding
+                    if j < end:                 # value expression
+                        j = group(j) if toks[j] in "([{" else j + 1
+        i += 1
+    ren = {nm: "v%d" % (k + 1) for k, nm in enumerate(names)}
+    # the name of the definition itself stays (recursive calls): it is toks[2]
+    defname = toks[2] if len(toks) > 2 else None
+    ren.pop(defname, None)
+    out = []
+    for t in _J_TOKEN.findall(text):
+        out.append(ren.get(t, t) if not t.isspace() else t)
+    return _ws("".join(out))
+
+
 def extract(tree):
     """-> ordered list of (lean identifier, human name, normalised text)"""
     out, cache = [], {}
@@ -224,17 +424,21 @@ def extract(tree):
             cache[rel] = strip_comments(read(tree, rel))
         src = cache[rel]
         try:
-            body = core_fn_body(src, name) if kind == "core" else func_body(src, name)
+            if kind == "core":
+                text = "(int32_t argc, Janet *argv) " + core_fn_body(src, name)
+            else:
+                params, body = c_params(src, name)
+                text = params + " " + body
         except ExtractError:
             raise
         except Exception as e:
             raise ExtractError("C17: cannot locate %s in %s (%s)" % (name, rel, e))
-        if not body:
+        if not text:
             raise ExtractError("C17: cannot locate %s in %s" % (name, rel))
-        out.append((name, "%s %s" % (rel, name), _ws(body)))
+        out.append((name, "%s %s" % (rel, name), c_alpha(_ws(text))))
     boot = read(tree, "src/boot/boot.janet")
     for name in JANET_DEFS:
-        out.append(("boot_" + lean_ident(name), "boot.janet %s" % name, janet_def(boot, name)))
+        out.append(("boot_" + lean_ident(name), "boot.janet %s" % name, janet_alpha(janet_def(boot, name))))
     return out
 
 
@@ -244,7 +448,7 @@ def lean_str(s):
 
 def render(tree):
     L = ["-- GENERATED by /verif/tools/gen/libsrc.py from the current janet source tree; regenerated on every check run; do not edit.",
-         "-- Normalised source text (comments / docstrings removed, whitespace collapsed) of every function that has a Lean mirror.",
+         "-- Normalised source text (comments / docstrings removed, whitespace collapsed, declared identifiers renamed v1, v2, …) of every function that has a Lean mirror.",
          "", "namespace JanetModel.Gen.LibSrc", ""]
     for ident, human, text in extract(tree):
         L.append("/-- %s -/" % human)
